@@ -38,6 +38,7 @@ type inst struct {
 	f     *hclwrite.File
 	shelf []*hclwrite.Block
 	cl    *caller // nil: every call gets fresh arguments (caller.go)
+	agree agreeStats // what the readers-agree oracle compared on this instance (agree.go)
 }
 
 func newInst(c *tcase) *inst {
@@ -851,6 +852,7 @@ type caseResult struct {
 	panicked bool
 	err      error
 	cstats   callerStats // what the aliasing / scribbling caller did (instance B)
+	astats   agreeStats  // what the readers-agree oracle compared (instance B)
 }
 
 func (r *caseResult) has(kind string) bool { _, ok := r.failStep[kind]; return ok }
@@ -871,6 +873,7 @@ func runCase(c *tcase, emit bool, full bool) (res *caseResult) {
 		if b.cl != nil {
 			res.cstats = b.cl.stats
 		}
+		res.astats = b.agree
 	}()
 	m := newMirror()
 	if c.Parsed {
@@ -1065,14 +1068,27 @@ func oracleStep(b *inst, m *mirror, before sigMap, touched map[any]bool, o *hop,
 	}
 	// readers
 	checkReaders(b.f.Body(), m.root, "", &fs)
+	readersOnly := false // the only fatal failures so far: readers vs mirror
 	for _, f := range fs {
 		if fatalKinds[f.kind] {
-			return fs
+			if f.kind != "reader-disagrees" {
+				return fs
+			}
+			readersOnly = true
 		}
 	}
 	// serialise, parse again
 	out := b.f.Bytes()
 	sf, diags := hclsyntax.ParseConfig(out, "", hcl.InitialPos)
+	if readersOnly {
+		// the readers disagree with the MIRROR: say as well whether they disagree with the FILE (agree.go;
+		// neither side of that comparison is the mirror), then stop as before
+		if !diags.HasErrors() {
+			b.agree.steps++
+			checkAgree(b.f.Body(), sf.Body.(*hclsyntax.Body), out, "", &fs, &b.agree)
+		}
+		return fs
+	}
 	// A reparse failure gets one of the two known kinds only when the step has the call-site shape of the
 	// finding (computed on the pre-state by the caller) AND putting the missing line break(s) back makes
 	// the very same tree serialise to a text that parses and agrees with the mirror (repairedClean):
@@ -1113,6 +1129,17 @@ func oracleStep(b *inst, m *mirror, before sigMap, touched map[any]bool, o *hop,
 		}
 		f.detail += fmt.Sprintf(" in %q", out)
 		fs = append(fs, f)
+	}
+	// readers of the live tree vs the file, read without hclwrite (agree.go); a step already filed under one of
+	// the pinned line-break findings has a file that is known not to be the tree
+	if !(len(rf) > 0 && known() != "") {
+		var af []oracleFail
+		b.agree.steps++
+		checkAgree(b.f.Body(), sf.Body.(*hclsyntax.Body), out, "", &af, &b.agree)
+		for _, f := range af {
+			f.detail += fmt.Sprintf(" in %q", out)
+			fs = append(fs, f)
+		}
 	}
 	// untouched items keep their tokens
 	if before != nil {
@@ -1267,6 +1294,19 @@ func corpus() []*tcase {
 			{Kind: opSetTrav, Path: []int{0}, Name: "t2", Trav: "local.a.b"}, {Kind: opRemoveAttr, Name: "a"}, {Kind: opRemoveBlock, Index: 0}, {Kind: opAppendBlock, Index: 0}}},
 		{Caller: callerScribbler, Parsed: true, Src: "a = [for x in y : x] # c\nb \"l\" {\n  c = 1\n}\n", Ops: []hop{{Kind: opSetRaw, Name: "z", Raw: "var.z"}, {Kind: opSetRaw, Path: []int{0}, Name: "c", Raw: "var.c"},
 			{Kind: opSetLabels, Index: 0, Labels: []string{"m"}}, {Kind: opSetRaw, Name: "z2", Raw: "var.z2"}}},
+		// arbitrary Unicode arguments (unicode.go, agree.go): the file carries the NFC form of a label, the readers must too
+		{Parsed: true, Src: "# sites served by this host\nsite \"plain\" {\n  root = \"/srv/plain\" # keep\n}\n\nsite \"other\" {\n  root = \"/srv/other\"\n}\n",
+			Ops: []hop{{Kind: opSetLabels, Index: 0, Labels: []string{"simple"}}, {Kind: opSetLabels, Index: 0, Labels: []string{"cafe\u0301"}}, set([]int{0}, "root"),
+				{Kind: opAppendNewBlock, Name: "alias", Labels: []string{"cafe\u0301", "www"}}, {Kind: opAppendNewBlock, Path: []int{2}, Name: "target", Labels: []string{"cafe\u0301"}}}},
+		// Hangul jamo, singletons, a supplementary-plane character NFC decomposes, NFKC-only text (unchanged), bytes that are not UTF-8;
+		// two blocks whose labels differ as given and are equal as written
+		{Ops: []hop{{Kind: opAppendNewBlock, Name: "b", Labels: []string{"\u1100\u1161\u11a8", "\u212b"}}, {Kind: opAppendNewBlock, Name: "b", Labels: []string{"\uac01", "\u00c5"}},
+			{Kind: opAppendNewBlock, Name: "b", Labels: []string{"\U0001D15E", "\ufb01\u2460", "\xff", "a\xc3", "\U000E0001"}}, {Kind: opSetLabels, Index: 1, Labels: []string{"a\u0301\u0323", "\u0344${x}"}},
+			{Kind: opSetType, Index: 2, Name: "cafe\u0301"}, {Kind: opRemoveBlock, Index: 0}, {Kind: opAppendBlock, Path: []int{0}, Index: 0}, {Kind: opSetLabels, Path: []int{0}, Index: 0, Labels: []string{"e\u0301\x80"}}}},
+		// labels of the source text are nobody's to normalise; names are written as given
+		{Caller: callerScribbler, Parsed: true, Src: "b \"cafe\u0301\" \"e\\u0301\" {\n  cafe\u0301 = 1\n}\nb \"caf\u00e9\" {\n}\n",
+			Ops: []hop{set([]int{0}, "caf\u00e9"), {Kind: opSetLabels, Index: 1, Labels: []string{"cafe\u0301", "e\u0301"}}, {Kind: opRename, Path: []int{0}, Name: "cafe\u0301", To: "\u1100\u1161"},
+				{Kind: opSetTrav, Path: []int{1}, Name: "t", Trav: "cafe\u0301.\u1100\u1161[\"\u1100\u1161\"]"}, {Kind: opSetLabels, Index: 0, Labels: []string{"\U0001F600", "x"}}}},
 	}
 }
 
@@ -1292,7 +1332,7 @@ var knownKinds = map[string]bool{"append-after-unterminated-item": true, "remove
 
 func runC12(cfg *hv.RunCfg) error {
 	rep := hv.NewReport("C12", cfg.Seed)
-	rep.Rule = "histories of 1-40 writer-API operations (set by value/traversal/raw tokens - lexed or built through TokensForTuple/FunctionCall/Object -, rename, remove, append new/shelved block, remove block, SetType, SetLabels, AppendNewline/AppendUnstructuredTokens, Clear; bodies addressed through Blocks()[i].Body() to depth 4) on an empty file, a file built through the API, or a file parsed from generated text with lead/line/inline comments, bare/quoted/escaped/template-character labels, CRLF, one-line blocks and missing final newline; 60% of the generated histories are run by an aliasing caller (token/label/traversal arguments of successive calls cut from one backing array with spare capacity, every result of every reader modified after each call; 35%: arguments scribbled over after each call as well), 10% contain a run of shared-prefix raw sets of distinct attributes (may exceed 40 operations); hand corpus first; non-trivial = at least one operation changes the item structure; distinct by SHA-256 of the case"
+	rep.Rule = "histories of 1-40 writer-API operations (set by value/traversal/raw tokens - lexed or built through TokensForTuple/FunctionCall/Object -, rename, remove, append new/shelved block, remove block, SetType, SetLabels, AppendNewline/AppendUnstructuredTokens, Clear; bodies addressed through Blocks()[i].Body() to depth 4; in about a fifth of the label-setting calls the labels are arbitrary byte strings: not NFC (combining marks in any order, Hangul jamo, singleton decompositions), supplementary-plane, NFC-stable text NFKC would change, not UTF-8 - the mirror holds x/text NFC + U+FFFD per invalid byte; non-NFC string values, object keys, identifiers and traversal steps) on an empty file, a file built through the API, or a file parsed from generated text with lead/line/inline comments, bare/quoted/escaped/template-character labels, CRLF, one-line blocks and missing final newline; 60% of the generated histories are run by an aliasing caller (token/label/traversal arguments of successive calls cut from one backing array with spare capacity, every result of every reader modified after each call; 35%: arguments scribbled over after each call as well), 10% contain a run of shared-prefix raw sets of distinct attributes (may exceed 40 operations); after every step the readers of the live tree (Type/Labels/FirstMatchingBlock/Attributes/GetAttribute/Expr tokens) are compared with hclsyntax.ParseConfig(Bytes()) as well as with the mirror; hand corpus first; non-trivial = at least one operation changes the item structure; distinct by SHA-256 of the case"
 	r := hv.NewRng(cfg.Seed, 12)
 	cf := &hv.CaseFile{Dir: cfg.Out, Name: "c12cases",
 		Imports: "From Coq Require Import String.\nFrom HclV Require Import Base.Prelude Write.Format Write.Tree Write.TreeCheck.",
@@ -1380,6 +1420,32 @@ func runC12(cfg *hv.RunCfg) error {
 			"caller:append-unstructured-kept-caller-slice": cs.appendRawRetains} {
 			if v > 0 {
 				rep.Histogram[k] += v
+			}
+		}
+		// readers-agree oracle (agree.go): how much was compared
+		for k, v := range map[string]int{"readers-agree:steps-compared": res.astats.steps, "readers-agree:block-type+labels-comparisons": res.astats.blocks,
+			"readers-agree:block-comparisons-with-non-ascii-file-labels": res.astats.uni, "readers-agree:FirstMatchingBlock-lookups-with-file-labels": res.astats.fmb,
+			"readers-agree:attribute-name+expression-bytes-comparisons": res.astats.attrs} {
+			if v > 0 {
+				rep.Histogram[k] += v
+			}
+		}
+		// arbitrary Unicode arguments (unicode.go), counted on the operations that are executed
+		for _, o := range c.Ops {
+			if o.Kind != opAppendNewBlock && o.Kind != opSetLabels {
+				continue
+			}
+			rep.Hist("op:label-setting")
+			special, changed := false, false
+			for _, l := range o.Labels {
+				special = special || nonNFCorNonBMP(l)
+				changed = changed || changedByWriter(l)
+			}
+			if special {
+				rep.Hist("op:label-setting:with-non-nfc-or-non-bmp-label")
+			}
+			if changed {
+				rep.Hist("op:label-setting:with-label-the-writer-must-change(non-nfc/not-utf8)")
 			}
 		}
 		if res.panicked {
